@@ -119,10 +119,39 @@ def grammar_lits(g):
     return out
 
 
+def text_rules(g):
+    """names of match rules whose value is always one piece of input text as written: the body is a regex literal,
+    ID, a reference to such a rule, or an ordered choice of those (no sequences: joined without the whitespace; no
+    string literals: grammar spelling; no other base types: converted)"""
+    bodies = {r["name"]: r["body"] for r in g["rules"]}
+    memo = {}
+
+    def atom(e, stack):
+        if e.get("sup"):
+            return False
+        if e["k"] == "re":
+            return True
+        if e["k"] == "ref":
+            return e["name"] == "ID" or rule(e["name"], stack)
+        if e["k"] == "alt":
+            return all(atom(x, stack) for x in e["xs"])
+        return False
+
+    def rule(n, stack):
+        if n not in bodies or n in stack:
+            return False
+        if n not in memo:
+            memo[n] = atom(bodies[n], stack | {n})
+        return memo[n]
+
+    return {n for n in bodies if rule(n, frozenset())}
+
+
 def textual_attrs(g):
     """{rule: {attr: "id"|"text"}}: attributes only ever assigned (=, +=, *=) from ID ("id") or from ID / a regex
-    literal ("text") inside that rule's body"""
+    literal / a text-valued match rule ("text") inside that rule's body"""
     res = {}
+    trules = text_rules(g)
     for r in g["rules"]:
         kinds = {}
 
@@ -134,6 +163,8 @@ def textual_attrs(g):
                 elif rhs["k"] == "ref" and rhs["name"] == "ID" and not rhs.get("sup"):
                     k = "id"
                 elif rhs["k"] == "re" and not rhs.get("sup"):
+                    k = "text"
+                elif rhs["k"] == "ref" and rhs["name"] in trules and not rhs.get("sup"):
                     k = "text"
                 else:
                     k = "other"
@@ -216,7 +247,7 @@ def simple_grammar(rng):
     kw2 = restyle(rng.choice(KEYWORDS20), rng)
     rx, samples = rng.choice([r for r in RES20 if r[0] != r"q?"])
     sepre = rng.choice([r"and", r"[xy]"])
-    form = rng.below(4)
+    form = rng.below(5)
     if form == 0:
         gtext = f"Model: {G.q(kw)} a=/{rx}/ n=ID k={G.q(kw2)};\n"
         toks = [kw, rng.choice(samples), rng.choice(["foo", "Bar"]), kw2]
@@ -233,6 +264,11 @@ def simple_grammar(rng):
         toks = [rng.choice([kw, "foo"]), kw2, rng.choice(samples), "3"]
         lits = [("str", kw), ("str", kw2), ("re", rx)]
         textual = {"Model": {"n": "id"}}
+    elif form == 4:
+        gtext = f"Model: {G.q(kw)} xs+=X[','] y=Y;\nX: /{rx}/ | ID;\nY: X | {G.q(kw2)};\n"
+        toks = [kw, rng.choice(samples), ",", rng.choice(["Foo", "bar"]), ",", rng.choice(samples), rng.choice([kw2, "Zed"])]
+        lits = [("str", kw), ("str", ","), ("re", rx), ("str", kw2)]
+        textual = {"Model": {"xs": "text"}}
     else:
         gtext = f"Model: items*=Item;\nItem: {G.q(kw)} name=ID ('=' val=Val)? ';';\nVal: /{rx}/ | STRING | {G.q(kw2)};\n"
         toks = [kw, "Foo", "=", rng.choice(samples), ";", kw, "bar", ";", kw, "q", "=", kw2, ";"]
@@ -561,7 +597,7 @@ class Prop(Check):
         "Peg.run_congr",
     ]
     DRIVER = "Drivers/Case.lean"
-    QUICK_CASES = 400
+    QUICK_CASES = 420
     THOROUGH_CASES = 5000
     CASE_TIMEOUT = 90
     RULE = ("generated grammars (random: common/abstract/match rules, all operators, separators, eolterm, predicates, "
